@@ -331,6 +331,8 @@ def foreign_labels(repo, rep, rule):
 
 
 def run(repo, rep, tier):
+    from .round7b import hygiene
+    hygiene(repo, rep, "C05", ('wavespectra.specarray', 'wavespectra.core.utils', 'wavespectra.partition.', 'wavespectra.core.xrstats'), falsy=True)
     rep.rule("R-C05-9", "assign_coords never stamps another labelled object's coordinates onto data (that is a positional pairing): labels come from the receiver itself, "
                         "from arrays computed in the function, or are the wholesale restore of the input's own coordinates")
     rep.floor("R-C05-9", "assign_coords sites in label-level code", foreign_labels(repo, rep, "R-C05-9"), 5)
